@@ -91,7 +91,110 @@ func c11Skeleton(fd *ast.FuncDecl) []string {
 	return out
 }
 
+// c11StructFields returns (field name, type source, tag) of a struct type declared in the repository.
+func c11StructFields(name string) ([][3]string, bool) {
+	for _, f := range files {
+		for _, d := range f.Decls {
+			gd, ok := d.(*ast.GenDecl)
+			if !ok || gd.Tok != token.TYPE {
+				continue
+			}
+			for _, sp := range gd.Specs {
+				ts := sp.(*ast.TypeSpec)
+				st, ok := ts.Type.(*ast.StructType)
+				if !ok || ts.Name.Name != name {
+					continue
+				}
+				var out [][3]string
+				for _, fl := range st.Fields.List {
+					tag := ""
+					if fl.Tag != nil {
+						tag = unq(fl.Tag.Value)
+					}
+					typ := strings.Join(strings.Fields(src(fl.Type)), "")
+					if len(fl.Names) == 0 {
+						out = append(out, [3]string{typ, typ, tag})
+					}
+					for _, n := range fl.Names {
+						out = append(out, [3]string{n.Name, typ, tag})
+					}
+				}
+				return out, true
+			}
+		}
+	}
+	return nil, false
+}
+
+// c11BulkRanges lists the literal (from, to) pairs of the bulkAppendFields calls of a function, in source order.
+func c11BulkRanges(fd *ast.FuncDecl) []string {
+	var out []string
+	ast.Inspect(fd.Body, func(n ast.Node) bool {
+		ce, ok := n.(*ast.CallExpr)
+		if !ok {
+			return true
+		}
+		if id, ok := ce.Fun.(*ast.Ident); ok && id.Name == "bulkAppendFields" && len(ce.Args) == 4 {
+			a, ok1 := ce.Args[2].(*ast.BasicLit)
+			b, ok2 := ce.Args[3].(*ast.BasicLit)
+			if ok1 && ok2 {
+				out = append(out, "("+a.Value+", "+b.Value+")")
+			} else {
+				out = append(out, "(0, 0)")
+			}
+		}
+		return true
+	})
+	return out
+}
+
 func init() {
+	addSection("C11", func(w *bytes.Buffer) {
+		w.WriteString("/-! struct tags the marshaller model is written against; worksheet field order; bulkAppendFields ranges -/\n")
+		for _, st := range []string{"xlsxC", "xlsxF", "xlsxSI", "xlsxT", "xlsxR", "xlsxRow"} {
+			fs, ok := c11StructFields(st)
+			if !ok {
+				fail("struct type %s", st)
+				fmt.Fprintf(w, "def tags_%s : List (String × String × String) := []\n", st)
+				continue
+			}
+			fmt.Fprintf(w, "def tags_%s : List (String × String × String) := [", st)
+			for i, f := range fs {
+				if i > 0 {
+					w.WriteString(",")
+				}
+				fmt.Fprintf(w, "\n  (%s, %s, %s)", leanStr(f[0]), leanStr(f[1]), leanStr(f[2]))
+			}
+			w.WriteString("]\n")
+		}
+		if fs, ok := c11StructFields("xlsxWorksheet"); ok {
+			w.WriteString("def worksheetFields : List String := [")
+			for i, f := range fs {
+				if i > 0 {
+					w.WriteString(", ")
+				}
+				w.WriteString(leanStr(f[0]))
+			}
+			w.WriteString("]\n")
+		} else {
+			fail("struct type xlsxWorksheet")
+			w.WriteString("def worksheetFields : List String := []\n")
+		}
+		for _, fn := range []string{"NewStreamWriter", "writeSheetData", "Flush"} {
+			recv := "StreamWriter"
+			if fn == "NewStreamWriter" {
+				recv = "File"
+			}
+			fd := funcDecl(recv, fn)
+			if fd == nil {
+				fail("function %s.%s", recv, fn)
+				fmt.Fprintf(w, "def bulk_%s : List (Nat × Nat) := []\n", fn)
+				continue
+			}
+			fmt.Fprintf(w, "def bulk_%s : List (Nat × Nat) := [%s]\n", fn, strings.Join(c11BulkRanges(fd), ", "))
+		}
+		w.WriteString("\n")
+	})
 	addSection("C11", func(w *bytes.Buffer) {
 		// the outline-level limit: `if r.OutlineLevel > 7`
 		w.WriteString("/-! stream.go: RowOpts.marshalAttrs outline-level limit; function skeletons -/\n")
